@@ -367,6 +367,7 @@ class Gen:
         self.tok = 0
         self.size = SIZE
         self.rebuilding = False
+        self.removed = []               # snapshot ids removed from the chain in this session
 
     def cr(self):
         self.next_cr += 1
@@ -415,8 +416,12 @@ class Gen:
             self.tok += 1
             return [dict(op="write", tok=self.tok)]
         if x < 0.42:
-            if self.chain and rng.random() < self.known_bad:
-                s = rng.choice(self.chain)                            # duplicate of a chain member (known finding)
+            if self.removed and rng.random() < self.known_bad:
+                s = self.removed.pop()                                # reuse of a removed name (known finding: stale children entry)
+                self.chain.insert(0, s)
+                self.head += 1
+            elif self.chain and rng.random() < 0.04:
+                s = rng.choice(self.chain)                            # duplicate of a chain member: refused up front
             elif self.offchain and rng.random() < 0.15:
                 s = rng.choice(self.offchain)                         # duplicate of a stale off-chain snapshot
                 self.offchain.remove(s)                               # refused, and the stale files are removed
@@ -431,6 +436,7 @@ class Gen:
             d = self.some_name(pool)
             if d[0] == "s" and d[1] in self.chain[1:] and self.mode == "RW":
                 self.chain.remove(d[1])
+                self.removed.append(d[1])
             if d[0] == "s" and d[1] in self.offchain:
                 self.offchain.remove(d[1])
             return [dict(op="rm", d=d)]
@@ -523,6 +529,7 @@ def known_cases():
     return [
         dict(ops=P + [dict(op="write", tok=1), S(1, True), S(2), S(1)] + [dict(op="close"), dict(op="open")]),
         dict(ops=P + [dict(op="write", tok=1), S(1), dict(op="revert", d=("h", 1), cr=5)] + [dict(op="close"), dict(op="open")]),
+        dict(ops=P + [S(1), S(2), S(3), dict(op="rm", d=("s", 2)), S(2), dict(op="rm", d=("s", 3))] + [dict(op="close"), dict(op="open")]),
     ]
 
 
